@@ -913,6 +913,11 @@ def computeMacroscopicGroupConstants(
             single=True,
         )
 
+    if macroGroupConstants is None:
+        # nothing to sum (empty composition, or only zero densities): zero in every group
+        isGamma = libType == "gammaXS" or constantName == "gammaHeating"
+        macroGroupConstants = np.zeros(lib.numGroupsGamma if isGamma else lib.numGroups)
+
     return macroGroupConstants
 
 
